@@ -1,5 +1,7 @@
 import MobiusModel.Crash
+import MobiusModel.Request
 import MobiusModel.Generated.Persist
+import MobiusModel.Generated.Request
 /-!
   C20 — A crash never leaves persistent state torn.
 
@@ -395,5 +397,117 @@ example : get (crash (directWrite "Banlist.yaml".toList [3]) 1 (ofList [("Banlis
     = some [] := by decide
 example : WF (ofList [("al.yaml".toList, [1]), ("bob.yaml".toList, [2])]) := by
   unfold WF; decide
+
+/-! ## The crash points of a whole REQUEST (wave d)
+
+  A client's change is a transaction handled by a handler, and a handler composes store calls: the batched account
+  editor (`HandleUpdateUser`) makes one `AccountManager` call per record, a rename is one record.  The system calls
+  of the request are the concatenation of its store calls' programs (`Crash.reqProg`, each decided in the state its
+  predecessors left); a kill can land between two of them.  Reading: a record is one change in flight; every crash
+  state must load as the state after some PREFIX of the records (each whole or not at all, in order), and as the
+  state after all of them once every call was made.  One record = "old or new". -/
+
+/-- THE REQUEST-LEVEL CLAUSE for the account handlers: for every well-formed directory, every request (list of records
+    = account operations valid in the state they meet) and EVERY call boundary `k` of the whole request, the loader
+    sees the accounts as they are after the first `j` records for some `j`; the directory stays well formed (so the
+    statement applies again after the restart); and with all calls made it is the state after all records. -/
+theorem update_user_request_crash_safe (fs : FS) (hwf : WF fs) (ops : List AcctOp) (hv : ReqValid fs ops) (k : Nat) :
+    (∃ j, j ≤ ops.length ∧ obs (crash (reqProg fs ops) k fs) = obs (runReq fs (ops.take j))) ∧
+    WF (crash (reqProg fs ops) k fs) ∧
+    ((reqProg fs ops).length ≤ k → crash (reqProg fs ops) k fs = runReq fs ops) :=
+  request_crash_prefix fs hwf ops hv k
+
+/-- One-record requests (`HandleSetUser`, `HandleNewUser`, `HandleDeleteUser`, a single rename through the batched
+    editor): every crash state loads as the complete old or the complete new account set. -/
+theorem single_account_request_crash_safe (fs : FS) (hwf : WF fs) (op : AcctOp) (hv : op.Valid fs) (k : Nat) :
+    obs (crash (reqProg fs [op]) k fs) = obs fs ∨ obs (crash (reqProg fs [op]) k fs) = obs (runReq fs [op]) :=
+  single_record_request_old_or_new fs hwf op hv k
+
+/-- Store-independent composition: whenever each step of a request is atomic for an observation `o` (under an
+    invariant the steps re-establish), every crash prefix of the concatenated program observes as the state after a
+    prefix of the steps. -/
+theorem request_of_atomic_steps_crash_safe {β : Type} (o : FS → β) (I : FS → Prop) (ps : List Step)
+    (hat : ∀ p ∈ ps, AtomicStep o I p) (fs : FS) (hI : I fs) (k : Nat) :
+    ∃ j, j ≤ ps.length ∧ o (crash (stepsProg fs ps) k fs) = o (runSteps fs (ps.take j)) :=
+  seq_crash_prefix o I ps hat fs hI k
+
+/-- … instantiated for the single-file stores: a request that rewrites the board / the news file / the ban list any
+    number of times (each by write-temp-then-rename, the new content a function of the state) shows, at every call
+    boundary, the file after a prefix of those rewrites. -/
+theorem single_file_request_crash_safe (p : Name) (news : List (FS → Bytes)) (fs : FS) (hwf : WF fs)
+    (hp : TmpPrivate fs (tmpOf p)) (k : Nat) :
+    let ps : List Step := news.map fun new => fun fs => tempRename (tmpOf p) p (new fs)
+    ∃ j, j ≤ news.length ∧ get (crash (stepsProg fs ps) k fs) p = get (runSteps fs (ps.take j)) p := by
+  intro ps
+  have h := seq_crash_prefix (fun fs => get fs p) (fun fs => WF fs ∧ TmpPrivate fs (tmpOf p)) ps
+    (by
+      intro q hq
+      simp only [ps, List.mem_map] at hq
+      obtain ⟨new, _, rfl⟩ := hq
+      exact tempRename_atomicStep (tmpOf p) p (append_tmp_ne p) new) fs ⟨hwf, hp⟩ k
+  simpa [ps] using h
+
+/-- NEGATIVE WITNESS (why a record must be ONE store call): the rename `bob → rob` carried out as `Create(rob)` then
+    `Delete(bob)`.  After the calls of the Create and before the unlink the loader sees BOTH accounts – neither the
+    old set nor the new set – although each of the two store calls is atomic on its own; the same rename as one
+    `Update` is old-or-new at every crash point. -/
+theorem rename_as_create_then_delete_torn :
+    ∃ (fs : FS) (old new : Name) (d : Bytes) (k : Nat),
+      let ops := [AcctOp.create new d, AcctOp.delete old]
+      ReqValid fs ops ∧ k ≤ (reqProg fs ops).length ∧
+      obs (crash (reqProg fs ops) k fs) ≠ obs fs ∧
+      obs (crash (reqProg fs ops) k fs) ≠ obs (runReq fs ops) ∧
+      (∀ k', obs (crash (reqProg fs [AcctOp.update old new d]) k' fs) = obs fs ∨
+             obs (crash (reqProg fs [AcctOp.update old new d]) k' fs) = obs (runReq fs [AcctOp.update old new d])) :=
+  rename_as_create_delete_torn
+
+/-- OBLIGATION over the regenerated fact `handlerStoreCalls`: the handlers make exactly these store-changing calls, in
+    these branches.  In particular the batched editor's "account exists" branch – modify AND rename – is exactly one
+    `AccountManager.Update`; its delete branch one `Delete`; its create branch one `Create`. -/
+theorem handler_store_calls :
+    Generated.handlerStoreCalls =
+      [("mobius.HandleDelNewsArt", [("ThreadedNewsMgr.DeleteArticle", "")]),
+       ("mobius.HandleDelNewsItem", [("ThreadedNewsMgr.DeleteNewsItem", "")]),
+       ("mobius.HandleDeleteUser", [("AccountManager.Delete", "")]),
+       ("mobius.HandleDisconnectUser",
+          [("BanList.Add", "if t.GetField(hotline.FieldOptions).Data != nil && case 1"),
+           ("BanList.Add", "if t.GetField(hotline.FieldOptions).Data != nil && case 2")]),
+       ("mobius.HandleNewNewsCat", [("ThreadedNewsMgr.CreateGrouping", "")]),
+       ("mobius.HandleNewNewsFldr", [("ThreadedNewsMgr.CreateGrouping", "")]),
+       ("mobius.HandleNewUser", [("AccountManager.Create", "")]),
+       ("mobius.HandlePostNewsArt", [("ThreadedNewsMgr.PostArticle", "")]),
+       ("mobius.HandleSetUser", [("AccountManager.Update", "")]),
+       ("mobius.HandleTranOldPostNews", [("Server.PostMessageBoard", "")]),
+       ("mobius.HandleUpdateUser",
+          [("AccountManager.Delete", "loop && if len(subFields) == 1"),
+           ("AccountManager.Update", "loop && if acc != nil"),
+           ("AccountManager.Create", "loop && else acc != nil")])] := by decide
+
+/-- OBLIGATION: no branch of a handler makes two store-changing calls (one context = one branch): per request – and
+    per record of the batched editor – there is ONE store program, which is what `update_user_request_crash_safe`
+    needs of the handler. -/
+theorem one_store_call_per_branch :
+    ∀ r ∈ Generated.handlerStoreCalls, (r.2.map (·.2)).Nodup := by decide
+
+-- non-vacuity: a three-record request (create eve, rename bob → rob, delete al); what the loader sees at every one
+-- of its 6 + 6 + 1 call boundaries – always the state after 0, 1, 2 or 3 records
+example :
+    let fs := ofList [("al.yaml".toList, [1]), ("bob.yaml".toList, [2])]
+    let ops := [AcctOp.create "eve".toList [5], AcctOp.update "bob".toList "rob".toList [9], AcctOp.delete "al".toList]
+    (List.range 14).map (fun k => obs (crash (reqProg fs ops) k fs)) =
+      [[[1], [2]], [[1], [2]], [[1], [2]], [[1], [2]], [[1], [2]],        -- nothing yet
+       [[1], [2], [5]], [[1], [2], [5]], [[1], [2], [5]], [[1], [2], [5]], [[1], [2], [5]], [[1], [2], [5]],
+       [[1], [2], [5]],                                                     -- eve created (link), bob's rename under way
+       [[1], [9], [5]],                                                     -- bob renamed and rewritten
+       [[9], [5]]] := by decide                                            -- al deleted
+example : ReqValid (ofList [("al.yaml".toList, [1]), ("bob.yaml".toList, [2])])
+    [AcctOp.create "eve".toList [5], AcctOp.update "bob".toList "rob".toList [9], AcctOp.delete "al".toList] := by
+  refine ⟨?_, ?_, trivial, trivial⟩ <;> simp only [AcctOp.Valid] <;> decide
+-- the torn state of the two-call rename, concretely: both accounts are loaded
+example : obs (crash (reqProg (ofList [("bob.yaml".toList, [2])]) [AcctOp.create "rob".toList [9], AcctOp.delete "bob".toList]) 6
+    (ofList [("bob.yaml".toList, [2])])) = [[2], [9]] := by decide
+example : AtomicStep (fun fs => get fs "b".toList) (fun fs => WF fs ∧ TmpPrivate fs (tmpOf "b".toList))
+    (fun _ => tempRename (tmpOf "b".toList) "b".toList [7]) :=
+  tempRename_atomicStep _ _ (append_tmp_ne _) _
 
 end Mobius.C20
